@@ -75,6 +75,10 @@ def u_simple(p, kind=None):
     st = rng.choice(["fresh", "active", "active", "poked", "poked", "stopped"])
     if st == "fresh":
         return
+    if kind == "e" and rng.random() < 0.2:
+        p.add("s%d,9" % h)            # uv_fs_event_start on a missing path: fails, the handle stays usable
+        if rng.random() < 0.5:
+            return
     if kind == "t":
         p.add("s%d,%d" % (h, 0 if st != "active" or rng.random() < 0.5 else 1))
     elif kind == "g":
@@ -139,7 +143,9 @@ def u_tcp(p):
     v = rng.choice(["pair", "pair", "pair", "pending-connect", "pending-connect-raw", "unaccepted", "fresh",
                     "listening", "close-in-connect-cb", "connect-refused", "delayed-error"])
     if v == "fresh":
-        p.init("T")
+        h = p.init("T")
+        if rng.random() < 0.5:
+            p.add("p%d" % h)          # uv_tcp_open with a closed descriptor: fails, the handle must still close
         return
     if v == "pending-connect-raw":
         c = p.init("T")
@@ -204,7 +210,9 @@ def u_pipe(p):
     v = rng.choice(["pair", "pair", "pair", "listen", "listen+connect", "listen+pending", "fresh", "connect-enoent",
                     "longname", "longname", "rw-event", "rw-event", "connect-no-socket", "connect-no-socket"])
     if v == "fresh":
-        p.init("P")
+        h = p.init("P")
+        if rng.random() < 0.5:
+            p.add("p%d" % h)
         return
     if v == "pair":
         a = p.init("P")
@@ -289,6 +297,8 @@ def u_udp(p):
             p.on("H%d" % h, "C%d" % h)
         return
     if v == "fresh":
+        if rng.random() < 0.5:
+            p.add("p%d" % h)
         return
     if v in ("bound", "recv"):
         p.add("b%d" % h)
@@ -413,6 +423,13 @@ def gen_case(rng, liveness=False):
             p.on(key, "C%d" % h)
         elif p.n > 1:
             p.on("K%d" % rng.choice(hs), "C%d" % h)
+    # initialisations that fail (they must leave no trace in the loop) and opens with a bad descriptor
+    for _ in range(rng.choice([0, 0, 0, 1, 1, 2])):
+        op = "i" + rng.choice(sorted(FAILED_INIT))
+        if p.hooks and rng.random() < 0.3:
+            p.on(rng.choice(p.hooks), op)
+        else:
+            p.ops.insert(rng.randint(0, len(p.ops)), op)
     if liveness:
         # ref / unref at random places after the handle exists: top level and inside callbacks
         for _ in range(rng.randint(0, 2 * p.n)):
@@ -634,6 +651,15 @@ def translate(line, late_d):
 # --------------------------------------------------------------------------
 # monitor: the property itself, decided on the implementation's trace
 # --------------------------------------------------------------------------
+FAILED_INIT = {
+    "T4": "uv_tcp_init_ex(AF_INET), socket() = EMFILE", "T6": "uv_tcp_init_ex(AF_INET6), socket() = EMFILE",
+    "Tf": "uv_tcp_init_ex, invalid flags", "Td": "uv_tcp_init_ex, invalid domain",
+    "U4": "uv_udp_init_ex(AF_INET), socket() = EMFILE", "Uf": "uv_udp_init_ex, invalid flags",
+    "oc": "uv_poll_init, closed descriptor", "or": "uv_poll_init, regular file (EPERM)",
+    "oe": "uv_poll_init, descriptor already watched", "yc": "uv_tty_init, closed descriptor",
+    "yf": "uv_tty_init, not a tty",
+}
+
 BANG = {
     "!reentrant-callback-inside-uv_close": "a callback ran inside uv_close()",
     "!nested-callback": "a callback ran inside another API call made from a callback",
@@ -653,6 +679,13 @@ def monitor(case, line):
             m = re.match(r"!(late|reqlate|twice|closetwice|owed|never-closed|never-called|fdleak|loop_close|sockleft)(-?\d+)", tok)
             if tok in BANG:
                 return BANG[tok]
+            if tok.startswith("!failed-init-linked"):
+                return "handle whose initialisation failed (%s) is still linked in the loop (visited by uv_walk / " \
+                       "keeps uv_loop_close busy)" % FAILED_INIT.get(tok[19:], tok[19:])
+            if tok.startswith("!walk-unknown"):
+                return "uv_walk visits %s handle(s) that are not live handles of the program" % tok[13:]
+            if tok.startswith("!walk-missing"):
+                return "uv_walk does not visit %s live handle(s)" % tok[13:]
             if m:
                 what = {"late": "callback for handle %s after its close_cb",
                         "reqlate": "callback of request %s after the close_cb of its handle",
